@@ -98,7 +98,13 @@ fn place_json<'tcx>(tcx: TyCtxt<'tcx>, body: &mir::Body<'tcx>, p: &Place<'tcx>) 
         projs.push(s);
         cur_ty = cur_ty.projection_ty(tcx, elem);
     }
-    format!("{{\"l\":{},\"p\":[{}]}}", p.local.index(), projs.join(","))
+    if projs.is_empty() {
+        format!("{{\"l\":{},\"p\":[]}}", p.local.index())
+    } else {
+        // "t": type of the projected place (lets rules see what an index / field access yields)
+        let t = with_no_trimmed_paths!(format!("{}", cur_ty.ty));
+        format!("{{\"l\":{},\"p\":[{}],\"t\":\"{}\"}}", p.local.index(), projs.join(","), esc(&t))
+    }
 }
 
 fn operand_json<'tcx>(tcx: TyCtxt<'tcx>, body: &mir::Body<'tcx>, o: &Operand<'tcx>) -> String {
